@@ -1,7 +1,7 @@
 (* Tie: select_jobs_by_tag (scheduler/base/scheduler.py) as GENERATED from /repo's current source is the
    filter by Model/Sched.v's tag_match.  Re-proved on every run. *)
 From Coq Require Import ZArith List Bool.
-From Sv Require Import PyTime Timer Job Sched.
+From Sv Require Import PyTime Timer Job Sched SchedFacts.
 From Gen Require Import GenSelect.
 Import ListNotations.
 Open Scope Z_scope.
@@ -15,4 +15,17 @@ Theorem tie_select_jobs_by_tag jobs tags any :
 Proof.
   unfold GenSelect.select_jobs_by_tag, tag_match. destruct any; cbn [bind]; f_equal; apply filter_ext; intros j.
   unfold zset_inter, intersectsb. apply existsb_filter.
+Qed.
+
+(* C12 restated on the GENERATED function: it returns exactly the given jobs that carry all of the tags (any_tag false)
+   or at least one of them (any_tag true), in their order, and never fails *)
+Theorem gen_select_spec jobs tags any :
+  exists sel, GenSelect.select_jobs_by_tag jobs tags any = Ok sel /\
+    forall j, In j sel <->
+      In j jobs /\ (if any then exists t, In t tags /\ In t (ptj_tags j) else forall t, In t tags -> In t (ptj_tags j)).
+Proof.
+  rewrite tie_select_jobs_by_tag. eexists. split; [reflexivity|]. intros j. rewrite filter_In.
+  destruct any.
+  - rewrite SchedFacts.tag_match_any. reflexivity.
+  - rewrite SchedFacts.tag_match_all. reflexivity.
 Qed.
